@@ -941,7 +941,10 @@ pub fn gen_c04(rng: &mut Prng, run: u64, t: &Tier) -> Vec<Ev> {
         let choice = rng.below(10);
         if (step == 0 && start_jump) || choice < 3 {
             if pos_idx < targets.len() {
-                let skip = rng.geometric(12) + if rng.chance(1, 3) { rng.range(0, 30) } else { 0 };
+                // upwards through the whole list: the expected stride spreads the (about three in ten
+                // steps) jumps of this run over all targets, small strides now and then
+                let stride = (targets.len() * 10 / (3 * steps)).max(2);
+                let skip = if rng.chance(1, 4) { rng.geometric(12) } else { rng.range(0, 2 * stride) };
                 pos_idx = (pos_idx + skip).min(targets.len() - 1);
                 let mut to = targets[pos_idx];
                 if rng.chance(1, 4) && pos_idx + 1 < targets.len() {
@@ -1393,10 +1396,11 @@ fn perturb_bytes(rng: &mut Prng, v: &[u8]) -> Vec<u8> {
 }
 
 pub fn gen_c07(rng: &mut Prng, run: u64, _t: &Tier) -> Vec<Ev> {
-    if run == 8 || (_t.thorough && (run == 9 || run == 10)) {
-        // one configuration string longer than 2^32 bytes per batch (thorough: info, psk_id and psk)
+    if run == 8 || (_t.thorough && (run == 100_008 || run == 200_008)) {
+        // one configuration string longer than 2^32 bytes per batch (thorough: info, psk_id and psk,
+        // far apart in the batch so that they do not hold their 4 GiB buffers at the same time)
         let suite = SuiteId { kem: KemId::X25519, kdf: KdfId::S256, aead: AeadId::ChaCha, shim: false };
-        let field = if _t.thorough { (run - 8) as u8 } else { rng.below(3) as u8 };
+        let field = if _t.thorough { (run / 100_000) as u8 } else { rng.below(3) as u8 };
         return vec![Ev::HugeFieldProbe { suite, field, pad: (1u64 << 32) + rng.below(9) }];
     }
     let mut ev = vec![];
@@ -1695,6 +1699,20 @@ pub fn gen_c09(rng: &mut Prng, run: u64, t: &Tier) -> Vec<Ev> {
             }
         }
         push(pk[1..].to_vec(), kind);
+        // valid points whose x-coordinate lies just below the field prime, or is tiny (range checks
+        // against a mistyped prime go wrong only there)
+        for near_p in [true, true, false] {
+            for _ in 0..6 {
+                let r = math::U::from_u64(rng.below(1 << 20));
+                let xs = if near_p { cv.p.sub(&math::U::from_u64(1)).0.sub(&r).0 } else { r };
+                if let Some(ys) = cv.sqrt(&cv.rhs(&xs)) {
+                    if cv.on_curve(&xs, &ys) {
+                        push(cv.encode(&xs, &ys), kind);
+                        break;
+                    }
+                }
+            }
+        }
         for (off, bit) in [(1usize, 0x80u8), (1, 0x02), (1 + fl, 0x80), (1 + fl, 0x04)] {
             // a valid key with a bit set in the leading byte of a coordinate (for P-521 these bits are
             // outside the field: the value is >= p and must be rejected, never masked away)
@@ -2028,6 +2046,20 @@ pub fn gen_c10(rng: &mut Prng, run: u64, _t: &Tier) -> Vec<Ev> {
         _ => {
             // negatives: random strings and bit-flipped honest keys are never rejected
             let mut pkx = if rng.chance(1, 2) { rng.rand_bytes(32) } else { let mut v = small[enc_i].clone(); let bit = rng.range(8, 250); v[bit / 8] ^= 1 << (bit % 8); v };
+            if rng.chance(1, 3) {
+                // a near miss of a small-order value: two adjacent bytes transposed, or one byte off by
+                // one (what a mistyped table entry in a reject list would match)
+                let mut v = small[enc_i].clone();
+                let i = rng.below(31) as usize;
+                if rng.chance(2, 3) {
+                    v.swap(i, i + 1);
+                } else {
+                    v[i] = v[i].wrapping_add(if rng.chance(1, 2) { 1 } else { 0xff });
+                }
+                if !small.contains(&v) && !small.contains(&math::x25519_canon(&v)) {
+                    pkx = v;
+                }
+            }
             if rng.chance(1, 4) {
                 // a small-order value read in the wrong byte order (u = 2^248 for "1", ...)
                 let mut v = small[enc_i].clone();
@@ -2335,6 +2367,14 @@ pub fn gen_c13(rng: &mut Prng, run: u64, t: &Tier) -> Vec<Ev> {
         _ => {}
     }
     setup_pair(&mut ev, rng, 0, &cfg, false, false);
+    if mode.has_auth() && rng.chance(1, 3) {
+        // an identity pair whose halves do not belong together (the API takes them as two values): the
+        // sender can only succeed or fail with EncapError, whatever the build
+        ev.push(Ev::Keygen { k: 14, kem, ikm: ikm(rng) });
+        ev.push(Ev::SetupS { c: 5, cfg: cfg.clone(), kr: 0, ks: Some(1), ks_pub: Some(14), rng: rng_script(rng, kem), model_only: false });
+        let (pt, aad) = msg(rng, false);
+        ev.push(Ev::SingleShotSeal { c: 6, cfg: cfg.clone(), kr: 0, ks: Some(1), ks_pub: Some(14), rng: rng_script(rng, kem), pt, aad, inplace: rng.chance(1, 2) });
+    }
     // key / enc / tag deserialisation with hostile bytes
     for kind in [Kind::Pk, Kind::Sk, Kind::Enc, Kind::Tag] {
         let size = match kind {
